@@ -29,6 +29,7 @@ class Engine:
 
     # ------------------------------------------------------------------ per-path state
     def _reset_path(self, decisions, assume):
+        self.frozen = False
         self.decisions = list(decisions)
         self.pos = 0
         self.pc = []
@@ -39,6 +40,7 @@ class Engine:
         self.prod_defs = {}          # z3 var id -> (var, a_term, b_term)
         self.red_defs = {}           # z3 var id -> (var, preimage term, modulus)
         self.inv_defs = {}           # z3 var id -> (var, argument term, modulus)
+        self.prod_axiom_ids = set()  # ids of the nonlinear definitional axioms m == a*b
         self.prod_index = {}         # (id a, id b) sorted -> term standing for a*b
         self.decided = {}            # id of simplified branch condition -> (term, decision) on this path
         self.bools = {}              # z3 term id -> term, for terms known to take only the values 0/1 on this path
@@ -86,12 +88,47 @@ class Engine:
             self.uncertain = True
         return r != z3.unsat
 
+    def enter_analysis(self, path):
+        """after exploration: evaluate reference/domain expressions against a finished path without forking"""
+        self.frozen = True
+        self.decided = {}
+        self.bools = dict(path.bools)
+        self.axioms = []                 # definitions created while analysing (reference terms); caller adds them
+        self.prod_defs = path.prod_defs  # shared, so the path's normaliser sees the new products
+        self.red_defs = path.red_defs
+        self.inv_defs = path.inv_defs
+        self.prod_index = dict(path.prod_index)
+        self.prod_axiom_ids = set(path.prod_axiom_ids)
+        self.bitcache = dict(path.bitcache)      # same skolems for the same terms as during the run
+        self.digitcache = dict(path.digitcache)
+        self.nfresh = 100000 + 1000 * getattr(self, "_analysis_round", 0)
+        self._analysis_round = getattr(self, "_analysis_round", 0) + 1
+        self.solver.reset()
+        self.solver.set("timeout", self.feas_timeout_ms)
+        for f in path.facts():
+            self.solver.add(f)
+
+    def unique_value(self, term):
+        """the single value a term can take under the current (analysis) facts, else None"""
+        if self.solver.check() != z3.sat:
+            return None
+        v = self.solver.model().eval(term, model_completion=True)
+        if not z3.is_int_value(v):
+            return None
+        self.solver.push()
+        self.solver.add(term != v)
+        r = self.solver.check()
+        self.solver.pop()
+        return v.as_long() if r == z3.unsat else None
+
     def branch(self, cond):
         cond = z3.simplify(cond)
         if z3.is_true(cond):
             return True
         if z3.is_false(cond):
             return False
+        if getattr(self, "frozen", False):
+            raise Unsupported("branching on a symbolic condition outside exploration: %s" % str(cond)[:80])
         prev = self.decided.get(cond.get_id())
         if prev is not None:
             return prev[1]
@@ -173,6 +210,10 @@ class PathResult:
         self.red_defs = dict(eng.red_defs)
         self.inv_defs = dict(eng.inv_defs)
         self.bools = dict(eng.bools)
+        self.prod_axiom_ids = set(eng.prod_axiom_ids)
+        self.bitcache = dict(eng.bitcache)
+        self.digitcache = dict(eng.digitcache)
+        self.prod_index = dict(eng.prod_index)
         self.uncertain = eng.uncertain
         self.notes = list(eng.notes)
 
@@ -184,7 +225,9 @@ class PathResult:
     def exc(self):
         return self.out[1] if self.out[0] == "exc" else None
 
-    def facts(self):
+    def facts(self, linear_only=False):
+        if linear_only:
+            return self.assume + self.pc + [a for a in self.ax if a.get_id() not in self.prod_axiom_ids]
         return self.assume + self.pc + self.ax
 
 
@@ -236,9 +279,9 @@ def pymod(a, d):
     return a - pyfloordiv(a, d) * d
 
 
-def bits_of(t, W=None):
+def bits_of(t, W=None, force=False):
     """exact binary expansion skolems: t = sum 2^i b_i + 2^W hi, b_i in {0,1} (hi any integer: two's complement)"""
-    W = max(W or 0, ENG.W)
+    W = W if (force and W) else max(W or 0, ENG.W)
     key = (t.get_id(), W)
     ent = ENG.bitcache.get(key)
     if ent is None:
@@ -387,6 +430,29 @@ def _concrete_mask_op(s, o, kind):
     return SymInt(acc)
 
 
+MAX_SPLIT = 64
+
+
+def _split_small(e, f, what):
+    """f(e) for a symbolic small non-negative integer e by forking on its value (reference semantics only)"""
+    e = _as_symint(e)
+    if getattr(ENG, "frozen", False):
+        k = ENG.unique_value(e.t)
+        if k is None:
+            raise Unsupported("symbolic %s is not determined by the path" % what)
+        if k < 0:
+            raise ValueError("negative %s" % what)
+        if k > 4 * MAX_SPLIT:
+            raise Unsupported("symbolic %s above %d" % (what, 4 * MAX_SPLIT))
+        return f(k)
+    if e < 0:
+        raise ValueError("negative %s" % what)
+    for k in range(MAX_SPLIT + 1):
+        if e == k:
+            return f(k)
+    raise Unsupported("symbolic %s above %d" % (what, MAX_SPLIT))
+
+
 def _as_symint(x):
     return x if type(x) is SymInt else SymInt(T(x))
 
@@ -444,8 +510,10 @@ class SymInt:
         raise Unsupported("true division of symbolic integers")
 
     def __pow__(s, e, m=None):
+        if m is None and type(e) in (SymInt, SymBool):
+            return _split_small(e, lambda k: s ** k, "exponent")
         if m is None:
-            if type(e) is int and 0 <= e <= 8:
+            if type(e) is int and 0 <= e <= 4 * MAX_SPLIT:
                 r = 1
                 for _ in range(e):
                     r = s * r
@@ -502,7 +570,12 @@ class SymInt:
     __rxor__ = __xor__
     def __invert__(s): return SymInt(-s.t - 1)
 
+    def __rpow__(s, base):
+        return _split_small(s, lambda k: base ** k, "exponent")
+
     def __rshift__(s, n):
+        if type(n) in (SymInt, SymBool):
+            return _split_small(n, lambda k: s >> k, "shift count")
         if type(n) is not int:
             raise Unsupported(">> by a symbolic count on plain integers")
         if n < 0:
@@ -514,6 +587,8 @@ class SymInt:
         return SymInt(s.t / z3.IntVal(1 << n))
 
     def __lshift__(s, n):
+        if type(n) in (SymInt, SymBool):
+            return _split_small(n, lambda k: s << k, "shift count")
         if type(n) is not int:
             raise Unsupported("<< by a symbolic count on plain integers")
         if n < 0:
@@ -521,10 +596,10 @@ class SymInt:
         return SymInt(s.t * (1 << n))
 
     def __rlshift__(s, o):
-        raise Unsupported("concrete << symbolic")
+        return _split_small(s, lambda k: o << k, "shift count")
 
     def __rrshift__(s, o):
-        raise Unsupported("concrete >> symbolic")
+        return _split_small(s, lambda k: o >> k, "shift count")
 
     def __int__(s):
         raise Unsupported("int() of SymInt at a C boundary")
@@ -554,14 +629,28 @@ def sym_bitop(a, b, kind, W=None):
     the high parts are combined only when both are zero, otherwise Unsupported is avoided by an axiom-free
     formula: result = sum 2^i f(a_i,b_i) + 2^W * fhi where fhi is left to exact two's complement reasoning for the
     cases hi in {0,-1}."""
+    at = a.t if type(a) is SymInt else T(a)
+    bt = b.t if type(b) is SymInt else T(b)
+    force = False
+    if W is None:
+        # smallest width both operands provably fit in (keeps the uniqueness-of-expansion reasoning small)
+        for w in (1, 2, 4, 8, 16):
+            fit = z3.And(at >= 0, at < (1 << w), bt >= 0, bt < (1 << w))
+            ENG.solver.push()
+            ENG.solver.add(z3.Not(fit))
+            r = ENG.solver.check()
+            ENG.solver.pop()
+            if r == z3.unsat:
+                W, force = w, True
+                break
     W = W or ENG.W
-    ba, ha, _ = bits_of(a.t if type(a) is SymInt else T(a), W)
-    bb, hb, _ = bits_of(b.t if type(b) is SymInt else T(b), W)
+    ba, ha, _ = bits_of(at, W, force)
+    bb, hb, _ = bits_of(bt, W, force)
     acc = None
     for i in reversed(range(W)):
         x, y = ba[i], bb[i]
-        # x*y with x,y in {0,1}: If(x==1, y, 0) keeps it linear
-        xy = z3.If(x == 1, y, z3.IntVal(0))
+        # x*y with x,y in {0,1}: If(x==1, y, 0) keeps it linear (and is shared with products the run itself formed)
+        xy = named_product(x, y)
         bit = xy if kind == "and" else (x + y - xy if kind == "or" else x + y - 2 * xy)
         acc = bit if acc is None else bit + 2 * acc
     # high part: only the sign-extension cases are modelled exactly
@@ -642,7 +731,9 @@ def named_product(a, b):
     m = ENG.fresh("m")
     ENG.prod_index[ik] = m
     ENG.prod_defs[m.get_id()] = (m, a, b)
-    ENG.add_axiom(m == a * b)
+    ax = (m == a * b)
+    ENG.prod_axiom_ids.add(ax.get_id())
+    ENG.add_axiom(ax)
     return m
 
 
